@@ -4,6 +4,7 @@ package core
 
 import (
 	"fmt"
+	"os"
 	"runtime"
 	"time"
 
@@ -150,4 +151,17 @@ func spin(i *int) {
 		return
 	}
 	time.Sleep(200 * time.Microsecond)
+}
+
+// fastTempRoot prefers a memory file system for per-case snapshot files: the
+// snapshotter fsyncs on shutdown, which costs tens of milliseconds on a loaded
+// disk and nothing on tmpfs (durability is not what these checks are about).
+func fastTempRoot() string {
+	if st, err := os.Stat("/dev/shm"); err == nil && st.IsDir() {
+		if d, err := os.MkdirTemp("/dev/shm", "probe-"); err == nil {
+			os.Remove(d)
+			return "/dev/shm"
+		}
+	}
+	return ""
 }
